@@ -8,6 +8,7 @@ mod ffi;
 mod consts_more;
 mod c01;
 mod c06;
+mod c07;
 mod c03;
 mod c04;
 mod c08;
@@ -71,6 +72,7 @@ fn main() {
                 "C01" => c01::run(&mut ctx),
                 "C03" => c03::run(&mut ctx),
                 "C06" => c06::run(&mut ctx),
+                "C07" => c07::run(&mut ctx),
                 "C04" => c04::run(&mut ctx),
                 "C08" => c08::run(&mut ctx),
                 "C09" => c09::run(&mut ctx),
